@@ -5,9 +5,10 @@
 //! ending in each content; compares every answer of the real in-memory zone
 //! with an independent reference resolver over plain data.
 use domain::base::iana::Rtype;
+use domain::base::MessageBuilder;
 use domain::zonetree::update::ZoneUpdater;
-use domain::zonetree::types::ZoneUpdate;
-use domain::zonetree::Zone;
+use domain::zonetree::types::{StoredName, ZoneUpdate};
+use domain::zonetree::{ReadableZone, Zone};
 use mc::zfix::*;
 use mc::*;
 use rayon::prelude::*;
@@ -168,8 +169,12 @@ fn cause_of(prevs: &[&Content], c: &Content, q: &RelName, hist: &str, e: &Expect
 }
 
 fn check_zone(ctx: &Ctx, stats: &Stats, zone: &Zone, c: &Content, hist: &str, prev: Option<&[&Content]>, case: &dyn Fn() -> Value) {
+    check_zone_q(ctx, stats, zone, c, hist, prev, case, &QNAMES)
+}
+
+fn check_zone_q(ctx: &Ctx, stats: &Stats, zone: &Zone, c: &Content, hist: &str, prev: Option<&[&Content]>, case: &dyn Fn() -> Value, qnames: &[&str]) {
     let read = zone.read();
-    for qn in QNAMES {
+    for qn in qnames.iter().copied() {
         let q = rel(qn);
         for qt in QTYPES {
             stats.eval();
@@ -194,7 +199,8 @@ fn check_zone(ctx: &Ctx, stats: &Stats, zone: &Zone, c: &Content, hist: &str, pr
                             format!("C08|{hist}|cause=unexplained|qname={}|expected={:?}|observed={:?}|{}", e.qclass, e.kind, o.kind(), what)
                         } else {
                             // each cause implies its observable symptom; anything else is reported in full
-                            let implied = match cause {
+                            // (and only a wrong kind of answer: a right kind with wrong sections is not what they describe)
+                            let implied = e.kind != o.kind() && match cause {
                                 "empty-non-terminal-marked-NXDOMAIN-by-write-interface" => o.kind() == Kind::NxDomain,
                                 "stale-node-of-removed-name-on-lookup-path" => matches!(o.kind(), Kind::NxDomain | Kind::NoData),
                                 _ => false,
@@ -236,6 +242,11 @@ fn soa_record(c: &Content) -> domain::zonetree::types::StoredRecord {
 /// History U: ZoneUpdater, AXFR-style full replacement of `from` by `to`.
 fn updater_replace(from: &Content, to: &Content) -> Result<Zone, String> {
     let zone = build_direct(from, false);
+    updater_replace_on(&zone, to)?;
+    Ok(zone)
+}
+
+fn updater_replace_on(zone: &Zone, to: &Content) -> Result<(), String> {
     let rt = rt();
     rt.block_on(async {
         let mut up = ZoneUpdater::<domain::zonetree::types::StoredName>::new(zone.clone()).await.map_err(|e| format!("{e:?}"))?;
@@ -248,13 +259,17 @@ fn updater_replace(from: &Content, to: &Content) -> Result<Zone, String> {
         }
         up.apply(ZoneUpdate::Finished(soa_record(to))).await.map_err(|e| format!("{e:?}"))?;
         Ok::<(), String>(())
-    })?;
-    Ok(zone)
+    })
 }
 
 /// History E: ZoneUpdater, IXFR-style edit from `from` to `to`.
 fn updater_edit(from: &Content, to: &Content) -> Result<Zone, String> {
     let zone = build_direct(from, false);
+    updater_edit_on(&zone, from, to)?;
+    Ok(zone)
+}
+
+fn updater_edit_on(zone: &Zone, from: &Content, to: &Content) -> Result<(), String> {
     let rt = rt();
     let (fr, tr) = (from.records(), to.records());
     rt.block_on(async {
@@ -275,8 +290,7 @@ fn updater_edit(from: &Content, to: &Content) -> Result<Zone, String> {
         }
         up.apply(ZoneUpdate::Finished(soa_record(to))).await.map_err(|e| format!("{e:?}"))?;
         Ok::<(), String>(())
-    })?;
-    Ok(zone)
+    })
 }
 
 /// History W: write interface edit, optionally preceded by an abandoned attempt.
@@ -565,6 +579,548 @@ fn zone_tree_part(ctx: &Ctx, stats: &Stats, quick: bool) -> (u64, u64) {
     (total, n_states)
 }
 
+// ---------------------------------------------------------------------------
+// TTL-aware observation by an arbitrary (any spelling) query name.
+// ---------------------------------------------------------------------------
+/// (owner lower-cased wire, type, TTL, normalised RDATA)
+type RecT = (Vec<u8>, u16, u32, Vec<u8>);
+
+#[derive(Clone, Debug, PartialEq)]
+struct ObsT {
+    o: Observed,
+    /// answer / authority / additional with TTLs
+    t: [BTreeSet<RecT>; 3],
+}
+
+/// Err(()) = the zone refused the name as not being inside it.
+fn query_name(read: &dyn ReadableZone, name: &StoredName, qtype: Rtype) -> Result<ObsT, ()> {
+    let a = read.query(name.clone(), qtype).map_err(|_| ())?;
+    let mut q = MessageBuilder::new_vec();
+    q.header_mut().set_id(77);
+    let mut q = q.question();
+    q.push((name.clone(), qtype)).unwrap();
+    let qmsg = q.into_message();
+    let out = a.to_message(&qmsg, MessageBuilder::new_vec());
+    let octets = out.as_slice().to_vec();
+    let raw = mc::wire::read_message(&octets).expect("observe: to_message output unreadable");
+    let mut o = Observed { rcode: (raw.flags & 0xF) as u8, aa: raw.flags & 0x0400 != 0, answer: BTreeSet::new(), authority: BTreeSet::new(), additional: BTreeSet::new(), dup: false };
+    let mut t: [BTreeSet<RecT>; 3] = Default::default();
+    for (i, sec) in raw.sections.iter().enumerate() {
+        for r in sec {
+            // owners are compared case-insensitively: the spelling echoed is the implementation's choice
+            let labels: Vec<Vec<u8>> = r.owner.iter().map(|l| mc::wire::lower(l)).collect();
+            let item = (mc::wire::to_wire(&labels), r.rtype, norm_rdata(&octets, r.rtype, r.rdata_pos, &r.rdata));
+            t[i].insert((item.0.clone(), item.1, r.ttl, item.2.clone()));
+            let fresh = match i {
+                0 => o.answer.insert(item),
+                1 => o.authority.insert(item),
+                _ => o.additional.insert(item),
+            };
+            if !fresh {
+                o.dup = true;
+            }
+        }
+    }
+    Ok(ObsT { o, t })
+}
+
+// ---------------------------------------------------------------------------
+// Part N1: the case axis of the query alphabet. DNS names are compared
+// case-insensitively (RFC 1034 3.1, RFC 4343): every spelling of a name
+// inside the zone gets the answer the reference prescribes for that name -
+// never "out of zone" - and the same records, TTLs included, as the
+// lower-case spelling (owners compared case-insensitively).
+// ---------------------------------------------------------------------------
+fn check_case(ctx: &Ctx, stats: &Stats, zone: &Zone, c: &Content, hist: &str, qtypes: &[Rtype], case: &dyn Fn() -> Value) {
+    let read = zone.read();
+    for qn in QNAMES {
+        let q = rel(qn);
+        let low_name = spelled_name(&q, Spelling::Lower);
+        for qt in qtypes.iter().copied() {
+            let e = resolve(c, &q, qt);
+            let low = guard(|| query_name(read.as_ref(), &low_name, qt));
+            for sp in SPELLINGS {
+                let name = spelled_name(&q, sp);
+                if name.as_slice() == low_name.as_slice() {
+                    continue; // nothing to upper-case in this name
+                }
+                stats.eval();
+                stats.count(&format!("query-case.{sp:?}"));
+                let replay = || json!({"part": "N1", "zone": case(), "history": hist, "qname": format!("{name}"), "qtype": qt.to_string()});
+                match guard(|| query_name(read.as_ref(), &name, qt)) {
+                    Err(p) => {
+                        ctx.violation(&format!("C08|query-case|panic|{}", panic_class(&p)), &p, replay());
+                    }
+                    Ok(Err(())) => {
+                        ctx.violation(&format!("C08|query-case|name-inside-the-zone-refused-as-out-of-zone|spelling={sp:?}"), &format!("{name}/{qt}: query() refuses a name that is inside the zone (apex {})", zone.apex_name()), replay());
+                    }
+                    Ok(Ok(o)) => {
+                        if let Err(why) = compare(&e, &o.o) {
+                            let what = why.split_whitespace().take(2).collect::<Vec<_>>().join("-");
+                            ctx.violation(&format!("C08|query-case|{hist}|spelling={sp:?}|qname={}|expected={:?}|observed={:?}|{}", e.qclass, e.kind, o.o.kind(), what), &format!("{name}/{qt}: {why}; expected {:?}, observed {:?}", e.kind, o.o.kind()), replay());
+                        } else if let Ok(Ok(l)) = &low {
+                            if l.t != o.t || l.o != o.o {
+                                ctx.violation(&format!("C08|query-case|{hist}|spelling={sp:?}|answer-differs-from-the-lower-case-query|kind={:?}", o.o.kind()), &format!("{name}/{qt}: {:?} but {low_name}/{qt}: {:?}", o.t, l.t), replay());
+                            }
+                        }
+                    }
+                }
+            }
+        }
+    }
+}
+
+// ---------------------------------------------------------------------------
+// Reduced universes for the parts S / N2 / N3.
+// ---------------------------------------------------------------------------
+fn small_menus() -> Vec<Vec<K>> {
+    vec![vec![K::None, K::A, K::Cname, K::NsDs], vec![K::None, K::A], vec![K::None, K::Txt], vec![K::None, K::A, K::NsInDs], vec![K::None, K::A], vec![K::None, K::Txt]]
+}
+
+fn small_contents() -> Vec<Vec<K>> {
+    let m = small_menus();
+    let sizes: Vec<usize> = m.iter().map(|x| x.len()).collect();
+    let mut v = Vec::new();
+    product(&sizes, |ix| {
+        let ks: Vec<K> = ix.iter().enumerate().map(|(i, j)| m[i][*j]).collect();
+        if valid(&ks) {
+            v.push(ks);
+        }
+    });
+    v
+}
+
+/// A content of the S universe: a kind per slot plus an optional TXT at the apex.
+#[derive(Clone, Debug, PartialEq)]
+struct SC {
+    ks: Vec<K>,
+    apex_txt: bool,
+}
+
+impl SC {
+    fn content(&self, serial: u32) -> Content {
+        let mut c = content_of(&self.ks, serial);
+        if self.apex_txt {
+            c.add("", Rd::Txt("apex".into()));
+        }
+        c
+    }
+    fn desc(&self) -> Value {
+        let mut v: Vec<String> = SLOTS.iter().zip(self.ks.iter()).map(|(s, k)| format!("{s}={k:?}")).collect();
+        v.push(format!("@txt={}", self.apex_txt));
+        json!(v)
+    }
+    /// every single-slot change over the small menus, the apex TXT toggled; `None` = no RRset edit at all
+    fn edits(&self) -> Vec<Option<SC>> {
+        let m = small_menus();
+        let mut v = vec![None];
+        for i in 0..self.ks.len() {
+            for k in &m[i] {
+                if *k != self.ks[i] {
+                    let mut n = self.ks.clone();
+                    n[i] = *k;
+                    if valid(&n) {
+                        v.push(Some(SC { ks: n, apex_txt: self.apex_txt }));
+                    }
+                }
+            }
+        }
+        v.push(Some(SC { ks: self.ks.clone(), apex_txt: !self.apex_txt }));
+        v
+    }
+}
+
+fn bases(quick: bool) -> Vec<SC> {
+    let mut v = vec![
+        SC { ks: vec![K::None; 6], apex_txt: false },
+        SC { ks: vec![K::A, K::None, K::Txt, K::None, K::None, K::Txt], apex_txt: false },
+        SC { ks: vec![K::None, K::A, K::None, K::NsInDs, K::A, K::None], apex_txt: true },
+    ];
+    if !quick {
+        v.push(SC { ks: vec![K::Cname, K::None, K::None, K::A, K::None, K::A], apex_txt: false });
+        v.push(SC { ks: vec![K::ATxt, K::A, K::A, K::A, K::None, K::Txt], apex_txt: true });
+    }
+    v
+}
+
+/// Names to rewrite to get from `a` to `b` (see write_edit_full).
+fn dirty_names(a: &Content, b: &Content) -> Vec<RelName> {
+    let mut names: BTreeSet<RelName> = a.names.keys().cloned().collect();
+    names.extend(b.names.keys().cloned());
+    let changed: Vec<&RelName> = names.iter().filter(|n| a.names.get(*n) != b.names.get(*n)).collect();
+    names
+        .iter()
+        .filter(|n| {
+            changed.iter().any(|ch| {
+                let below = if ch.is_empty() { n.is_empty() } else { n.len() >= ch.len() && n[..ch.len()] == ch[..] };
+                let cut_above = ch.len() > n.len() && ch[..n.len()] == n[..] && (a.is_cut(n) || b.is_cut(n));
+                let glue_of = ns_targets(a, n).contains(ch) || ns_targets(b, n).contains(ch);
+                below || cut_above || glue_of
+            })
+        })
+        .cloned()
+        .collect()
+}
+
+// ---------------------------------------------------------------------------
+// Part S: how a write-interface batch ends. The zone's SOA is part of its
+// content; a commit either leaves it alone, or the caller stored a new one,
+// or the library is asked to derive one (commit(bump_soa_serial = true):
+// the old SOA with the serial advanced by one in RFC 1982 arithmetic, unless
+// the batch stored a new SOA itself). After every commit of a chain of
+// commits: every negative answer carries exactly the zone's current SOA, a
+// direct SOA query at the apex returns the same record, all answers are
+// those of the reference over the model content and - TTLs included - those
+// of a fresh ZoneBuilder-built zone with the same records.
+// ---------------------------------------------------------------------------
+#[derive(Clone, Copy, Debug, PartialEq)]
+enum Flav {
+    /// the batch stores a new SOA; commit(false)
+    Explicit,
+    /// the batch does not touch the SOA; commit(false)
+    Untouched,
+    /// the batch does not touch the SOA; commit(true)
+    Bump,
+    /// the batch stores a new SOA; commit(true)
+    ExplicitBump,
+}
+const FLAVS: [Flav; 4] = [Flav::Explicit, Flav::Untouched, Flav::Bump, Flav::ExplicitBump];
+const S_QNAMES: [&str; 8] = ["", "a", "b.a", "c", "x", "x.a", "y.d.c", "y.*"];
+/// the SOA MINIMUM field of the fixture's SOA records
+const SOA_MINIMUM: u32 = 13;
+
+#[derive(Clone, Copy, Debug, PartialEq)]
+struct SoaM {
+    serial: u32,
+    ttl: u32,
+}
+
+fn soa_rrset(m: SoaM) -> domain::zonetree::SharedRrset {
+    with_fix_opts(FixOpts { soa_ttl: m.ttl, ..Default::default() }, || rrset_of(&[Rd::Soa(m.serial)]))
+}
+
+/// What the caller stores when the flavour says "explicit": another serial and another TTL.
+fn explicit_next(m: SoaM) -> SoaM {
+    SoaM { serial: m.serial.wrapping_add(2), ttl: if m.ttl == TTL { 77 } else { TTL } }
+}
+
+/// The model: the SOA after a commit of that flavour.
+fn model_next(m: SoaM, f: Flav) -> SoaM {
+    match f {
+        Flav::Explicit | Flav::ExplicitBump => explicit_next(m),
+        Flav::Untouched => m,
+        // RFC 1982 3.1: s' = (s + n) modulo 2^32; everything else as it was
+        Flav::Bump => SoaM { serial: ((m.serial as u64 + 1) % (1u64 << 32)) as u32, ttl: m.ttl },
+    }
+}
+
+/// One committed batch on `zone`: the RRset edits a -> b (same SOA in both), the SOA handled as `explicit` / `bump` say.
+fn commit_step(zone: &Zone, a: &Content, b: &Content, explicit: Option<SoaM>, bump: bool, create_diff: bool) {
+    let rt = rt();
+    rt.block_on(async {
+        let mut w = zone.write().await;
+        let apex = w.open(create_diff).await.unwrap();
+        for n in dirty_names(a, b) {
+            if n.is_empty() {
+                // the apex: everything but the SOA (the SOA is the flavour's business) and the NS (fixed)
+                for t in [Rtype::A, Rtype::TXT] {
+                    let (old, new) = (a.rrset(&n, t), b.rrset(&n, t));
+                    if new.is_empty() && !old.is_empty() {
+                        apex.remove_rrset(t).await.unwrap();
+                    } else if new != old {
+                        apex.update_rrset(rrset_of(&new)).await.unwrap();
+                    }
+                }
+            } else {
+                write_name(apex.as_ref(), b, Some(a), &n).await;
+            }
+        }
+        if let Some(m) = explicit {
+            apex.update_rrset(soa_rrset(m)).await.unwrap();
+        }
+        drop(apex);
+        w.commit(bump).await.unwrap();
+    });
+}
+
+/// An ordinary write-interface edit from -> to on an existing zone (the new SOA stored, commit(false)).
+fn write_step(zone: &Zone, from: &Content, to: &Content) {
+    let Rd::Soa(serial) = to.soa() else { unreachable!() };
+    let mut a = from.clone();
+    a.set_serial(serial);
+    commit_step(zone, &a, to, Some(SoaM { serial, ttl: TTL }), false, false)
+}
+
+/// The SOA oracle proper (see part S).
+fn check_soa(ctx: &Ctx, stats: &Stats, zone: &Zone, c: &Content, m: SoaM, last: &str, case: &dyn Fn() -> Value) {
+    let fresh = with_fix_opts(FixOpts { soa_ttl: m.ttl, ..Default::default() }, || build_direct(c, false));
+    let (read, fread) = (zone.read(), fresh.read());
+    let apex_wire = mc::wire::to_wire(&[APEX.as_bytes().to_vec()]);
+    let soa_wire = Rd::Soa(m.serial).wire();
+    // RFC 2308 3: the negative answer's SOA has the SOA's TTL or, capped, the MINIMUM field if that is lower
+    let neg_ttls = [m.ttl, m.ttl.min(SOA_MINIMUM)];
+    for qn in S_QNAMES {
+        let q = rel(qn);
+        for qt in QTYPES {
+            stats.eval();
+            let name = abs_name(&q);
+            let replay = || json!({"part": "S", "chain": case(), "qname": qn, "qtype": qt.to_string()});
+            let o = match guard(|| query_name(read.as_ref(), &name, qt)) {
+                Ok(Ok(o)) => o,
+                Ok(Err(())) => {
+                    ctx.violation("C08|write-commit|name-inside-the-zone-refused-as-out-of-zone", &format!("{qn:?}/{qt}"), replay());
+                    continue;
+                }
+                Err(p) => {
+                    ctx.violation(&format!("C08|write-commit|query-panic|{}", panic_class(&p)), &p, replay());
+                    continue;
+                }
+            };
+            // every negative answer the zone gives - right or wrong about the name - carries the current SOA
+            if matches!(o.o.kind(), Kind::NxDomain | Kind::NoData) {
+                stats.count("commit-flavours.negative-answers");
+                let soas: Vec<&RecT> = o.t[1].iter().filter(|r| r.1 == 6).collect();
+                let why = if soas.is_empty() {
+                    Some("no-soa")
+                } else if o.t[1].len() != 1 {
+                    Some("more-than-the-soa")
+                } else if soas[0].0 != apex_wire {
+                    Some("owner-is-not-the-apex")
+                } else if soas[0].3 != soa_wire {
+                    // serial = the 4 octets before the last 16
+                    let n = soa_wire.len();
+                    if soas[0].3.len() == n && soas[0].3[..n - 20] == soa_wire[..n - 20] && soas[0].3[n - 16..] == soa_wire[n - 16..] {
+                        Some("serial-is-not-the-current-one")
+                    } else {
+                        Some("rdata-is-not-the-current-soas")
+                    }
+                } else if !neg_ttls.contains(&soas[0].2) {
+                    Some("ttl-is-neither-the-soas-nor-capped-by-minimum")
+                } else {
+                    None
+                };
+                if let Some(why) = why {
+                    ctx.violation(&format!("C08|write-commit|last-commit={last}|negative-answer|authority-soa|{why}"), &format!("{qn:?}/{qt}: authority {:?}; the zone's SOA is serial {} TTL {}", o.t[1], m.serial, m.ttl), replay());
+                }
+            }
+            // a direct SOA query at the apex: that very record, with its own TTL
+            if q.is_empty() && qt == Rtype::SOA {
+                let want: BTreeSet<RecT> = [(apex_wire.clone(), 6u16, m.ttl, soa_wire.clone())].into_iter().collect();
+                if o.t[0] != want {
+                    ctx.violation(&format!("C08|write-commit|last-commit={last}|apex-soa-query|not-the-current-soa"), &format!("answer {:?}; the zone's SOA is serial {} TTL {}", o.t[0], m.serial, m.ttl), replay());
+                }
+            }
+            // answers that are right (wrong ones are classified by check_zone): positive TTLs are the RRsets',
+            // and everything equals what a fresh zone with the same records says
+            let e = resolve(c, &q, qt);
+            if compare(&e, &o.o).is_ok() {
+                if let Some(bad) = o.t[0].iter().find(|r| r.2 != if r.1 == 6 { m.ttl } else { TTL }) {
+                    ctx.violation(&format!("C08|write-commit|last-commit={last}|answer-ttl-is-not-the-rrsets|kind={:?}", e.kind), &format!("{qn:?}/{qt}: {:?}", bad), replay());
+                }
+                match guard(|| query_name(fread.as_ref(), &name, qt)) {
+                    Ok(Ok(f)) => {
+                        if f.t != o.t {
+                            let sec = (0..3).find(|i| f.t[*i] != o.t[*i]).map(|i| ["answer", "authority", "additional"][i]).unwrap_or("?");
+                            ctx.violation(&format!("C08|write-commit|last-commit={last}|differs-from-fresh-zone-with-the-same-records|kind={:?}|section={sec}", e.kind), &format!("{qn:?}/{qt}: {:?}, fresh zone: {:?}", o.t, f.t), replay());
+                        }
+                    }
+                    _ => {} // a builder-built zone failing is the main part's business
+                }
+            }
+        }
+    }
+}
+
+fn commit_flavour_part(ctx: &Ctx, stats: &Stats, quick: bool) -> u64 {
+    // chains of (edit, flavour) steps
+    #[derive(Clone)]
+    struct Chain {
+        contents: Vec<SC>, // c0, c1, ..
+        flavs: Vec<Flav>,
+        serial0: u32,
+        diff: bool,
+    }
+    let serials: &[u32] = if quick { &[7, 0xFFFF_FFFF] } else { &[7, 0xFFFF_FFFF, 0xFFFF_FFFE, 0x7FFF_FFFF, 0] };
+    let mut chains: Vec<Chain> = Vec::new();
+    for k in bases(quick) {
+        for e in k.edits() {
+            // shapes: edit then revert; nothing then edit; thorough: edit then nothing; edit, nothing, revert
+            let k1 = e.clone().unwrap_or(k.clone());
+            let mut shapes: Vec<Vec<SC>> = vec![vec![k.clone(), k1.clone(), k.clone()]];
+            if e.is_some() {
+                shapes.push(vec![k.clone(), k.clone(), k1.clone()]);
+                if !quick {
+                    shapes.push(vec![k.clone(), k1.clone(), k1.clone()]);
+                }
+            }
+            if !quick {
+                shapes.push(vec![k.clone(), k1.clone(), k1.clone(), k.clone()]);
+            }
+            for sh in shapes {
+                let steps = sh.len() - 1;
+                let sizes = vec![FLAVS.len(); steps];
+                product(&sizes, |ix| {
+                    for s0 in serials {
+                        for diff in if quick { vec![false] } else { vec![false, true] } {
+                            chains.push(Chain { contents: sh.clone(), flavs: ix.iter().map(|i| FLAVS[*i]).collect(), serial0: *s0, diff });
+                        }
+                    }
+                });
+            }
+        }
+    }
+    chains.par_iter().for_each(|ch| {
+        let mut m = SoaM { serial: ch.serial0, ttl: TTL };
+        let case_upto = |upto: usize| json!({"contents": ch.contents[..=upto].iter().map(|c| c.desc()).collect::<Vec<_>>(), "commits": ch.flavs[..upto].iter().map(|f| format!("{f:?}")).collect::<Vec<_>>(), "serial0": ch.serial0, "create_diff": ch.diff});
+        let r = guard(|| {
+            let zone = build_direct(&ch.contents[0].content(m.serial), false);
+            let mut prevs: Vec<Content> = Vec::new();
+            for (i, f) in ch.flavs.iter().enumerate() {
+                let (a, b) = (ch.contents[i].content(m.serial), ch.contents[i + 1].content(m.serial));
+                let explicit = if matches!(f, Flav::Explicit | Flav::ExplicitBump) { Some(explicit_next(m)) } else { None };
+                commit_step(&zone, &a, &b, explicit, matches!(f, Flav::Bump | Flav::ExplicitBump), ch.diff);
+                m = model_next(m, *f);
+                prevs.push(a);
+                let c = ch.contents[i + 1].content(m.serial);
+                let case = || case_upto(i + 1);
+                let pr: Vec<&Content> = prevs.iter().collect();
+                stats.count(&format!("commit-flavours.{f:?}"));
+                check_zone_q(ctx, stats, &zone, &c, "write-commit-flavours", Some(&pr), &case, &S_QNAMES);
+                check_soa(ctx, stats, &zone, &c, m, &format!("{f:?}"), &case);
+            }
+        });
+        if let Err(p) = r {
+            ctx.violation(&format!("C08|write-commit|panic|{}", panic_class(&p)), &p, json!({"part": "S", "chain": case_upto(ch.flavs.len())}));
+        }
+    });
+    stats.count_n("commit-flavours.chains", chains.len() as u64);
+    chains.len() as u64
+}
+
+// ---------------------------------------------------------------------------
+// Parts N2 / N3: the case axis on the writing side. An owner name inside
+// the zone is accepted in every spelling by every interface that takes owner
+// names (ZoneBuilder::insert_*, parsed::Zonefile, update_child, ZoneUpdater
+// AddRecord / DeleteRecord / SOA records) and lands at the node of its
+// lower-case spelling: the zone then answers like the reference over the
+// (case-less) content. N3: the same for a zone whose apex is stored as "Z.".
+// ---------------------------------------------------------------------------
+fn owner_case_part(ctx: &Ctx, stats: &Stats, quick: bool, all: &[Vec<K>]) -> u64 {
+    let zones = std::sync::atomic::AtomicU64::new(0);
+    let universe: Vec<Vec<K>> = if quick { small_contents() } else { all.to_vec() };
+    let bare = Content::base(0);
+    let busy = content_of(&[K::ATxt, K::A, K::A, K::A, K::None, K::Txt], 0);
+    // (label, options while building the start zone, options while feeding owner names)
+    let mut axes: Vec<(String, FixOpts, FixOpts)> = SPELLINGS.iter().map(|sp| (format!("owners={sp:?}"), FixOpts::default(), FixOpts { owners: *sp, ..Default::default() })).collect();
+    axes.push(("apex-stored-upper".into(), FixOpts { zone_apex_upper: true, ..Default::default() }, FixOpts { zone_apex_upper: true, ..Default::default() }));
+    axes.push(("apex-stored-upper,owners=AltOdd".into(), FixOpts { zone_apex_upper: true, ..Default::default() }, FixOpts { zone_apex_upper: true, owners: Spelling::AltOdd, ..Default::default() }));
+    let refused = |iface: &str, axis: &str, what: &str, case: Value| {
+        ctx.violation(&format!("C08|owner-case|{iface}|owner-inside-the-zone-refused|{axis}"), what, case);
+    };
+    // the result of a guarded history: Ok(zone) or the failure text
+    let run = |iface: &str, axis: &str, hist: &str, c: &Content, prev: Option<&[&Content]>, case: &dyn Fn() -> Value, z: Result<Result<Zone, String>, String>, with_case_queries: bool| match z {
+        Ok(Ok(z)) => {
+            zones.fetch_add(1, std::sync::atomic::Ordering::Relaxed);
+            stats.count(&format!("owner-case.{iface}"));
+            check_zone(ctx, stats, &z, c, hist, prev, case);
+            if with_case_queries {
+                check_case(ctx, stats, &z, c, hist, &QTYPES, case);
+            }
+        }
+        Ok(Err(e)) => refused(iface, axis, &e, case()),
+        Err(p) => refused(iface, axis, &p, case()),
+    };
+    universe.par_iter().for_each(|ks| {
+        let c = content_of(ks, 1);
+        for (axis, o_build, o_feed) in &axes {
+            let case = || json!({"part": "N2", "contents": desc(ks), "axis": axis});
+            let upper_apex = o_build.zone_apex_upper;
+            // ZoneBuilder / parsed zonefile fed with the spelled owners
+            run("ZoneBuilder", axis, "owner-case-builder", &c, None, &case, guard(|| Ok(with_fix_opts(*o_feed, || build_direct(&c, false)))), upper_apex);
+            run("parsed-zonefile", axis, "owner-case-parsed", &c, None, &case, guard(|| with_fix_opts(*o_feed, || build_parsed(&c))), upper_apex);
+            // write interface / updater: the start zone as o_build says, the batch with spelled owners
+            run(
+                "write-interface",
+                axis,
+                "write-owner-case-from-bare",
+                &c,
+                Some(&[&bare]),
+                &case,
+                guard(|| {
+                    let z = with_fix_opts(*o_build, || build_direct(&bare, false));
+                    with_fix_opts(*o_feed, || write_step(&z, &bare, &c));
+                    Ok(z)
+                }),
+                false,
+            );
+            if plain(ks) {
+                run(
+                    "ZoneUpdater",
+                    axis,
+                    "updater-owner-case-replace-from-busy",
+                    &c,
+                    Some(&[&busy]),
+                    &case,
+                    guard(|| {
+                        let z = with_fix_opts(*o_build, || build_direct(&busy, false));
+                        with_fix_opts(*o_feed, || updater_replace_on(&z, &c))?;
+                        Ok(z)
+                    }),
+                    false,
+                );
+            }
+        }
+    });
+    // edits of an existing (lower-case built) zone: the spelled owner must reach the node that is there
+    let mut edits: Vec<(SC, SC)> = Vec::new();
+    for k in bases(quick) {
+        for e in k.edits().into_iter().flatten() {
+            if e.apex_txt != k.apex_txt {
+                continue; // (the apex has no label to spell; its owner spelling is covered by the SOA/NS records above)
+            }
+            edits.push((k.clone(), e.clone()));
+            edits.push((e, k.clone()));
+        }
+    }
+    edits.par_iter().for_each(|(from_sc, to_sc)| {
+        let (from, to) = (from_sc.content(0), to_sc.content(1));
+        for (axis, o_build, o_feed) in &axes {
+            let case = || json!({"part": "N2", "from": from_sc.desc(), "to": to_sc.desc(), "axis": axis});
+            run(
+                "write-interface",
+                axis,
+                "write-owner-case-edit",
+                &to,
+                Some(&[&from]),
+                &case,
+                guard(|| {
+                    let z = with_fix_opts(*o_build, || build_direct(&from, false));
+                    with_fix_opts(*o_feed, || write_step(&z, &from, &to));
+                    Ok(z)
+                }),
+                false,
+            );
+            if plain(&from_sc.ks) && plain(&to_sc.ks) {
+                run(
+                    "ZoneUpdater",
+                    axis,
+                    "updater-owner-case-edit",
+                    &to,
+                    Some(&[&from]),
+                    &case,
+                    guard(|| {
+                        let z = with_fix_opts(*o_build, || build_direct(&from, false));
+                        with_fix_opts(*o_feed, || updater_edit_on(&z, &from, &to))?;
+                        Ok(z)
+                    }),
+                    false,
+                );
+            }
+        }
+    });
+    zones.load(std::sync::atomic::Ordering::Relaxed)
+}
+
 fn main() {
     let ctx = Ctx::new("C08", "model_checking");
     let stats = Stats::new();
@@ -595,7 +1151,12 @@ fn main() {
             match guard(|| build_direct(&c, rev)) {
                 Ok(z) => {
                     tr(1);
-                    check_zone(&ctx, &stats, &z, &c, h, None, &case)
+                    check_zone(&ctx, &stats, &z, &c, h, None, &case);
+                    // N1: every spelling of every query name (quick: one builder order, the type menu
+                    // cut to an ordinary type and the one answered from the parent side of a cut)
+                    if !quick || !rev {
+                        check_case(&ctx, &stats, &z, &c, h, if quick { &[Rtype::A, Rtype::DS] } else { &QTYPES }, &case);
+                    }
                 }
                 Err(p) => {
                     ctx.violation(&format!("C08|{h}|build-panic|{}", panic_class(&p)), &p, json!({"zone": case()}));
@@ -606,7 +1167,10 @@ fn main() {
         match guard(|| build_parsed(&c)) {
             Ok(Ok(z)) => {
                 tr(1);
-                check_zone(&ctx, &stats, &z, &c, "parsed", None, &case)
+                check_zone(&ctx, &stats, &z, &c, "parsed", None, &case);
+                if !quick {
+                    check_case(&ctx, &stats, &z, &c, "parsed", &QTYPES, &case);
+                }
             }
             Ok(Err(e)) => {
                 let class: String = e.chars().filter(|ch| !ch.is_ascii_digit()).take(50).collect();
@@ -761,6 +1325,10 @@ fn main() {
         }
     }
     let (tree_seqs, tree_sets) = if replay_zone.is_none() { zone_tree_part(&ctx, &stats, quick) } else { (0, 0) };
+    // parts S and N2/N3 (their replays carry no "zone": the main loop then runs nothing)
+    let own_parts = replay_zone.as_ref().map(|z| z.is_empty()).unwrap_or(true);
+    let (commit_chains, owner_case_zones) = if own_parts { (commit_flavour_part(&ctx, &stats, quick), owner_case_part(&ctx, &stats, quick, &contents)) } else { (0, 0) };
+    tr(commit_chains + owner_case_zones);
     let t = transitions.load(std::sync::atomic::Ordering::Relaxed);
     ctx.finish(
         json!({
@@ -769,9 +1337,11 @@ fn main() {
             "traces_validated_against_impl": t,
             "evaluations": stats.evals(),
             "distinct_nontrivial": stats.distinct_count(),
-            "rule": "states = all zone contents (kind per slot name, consistent with zone rules); transitions = histories executed on the real zone (builder fwd/rev, parsed zonefile, updater full replacement from bare and busy zones, write interface from bare / via remove_all, and for every single-slot neighbour content an updater edit, a write-interface edit, a write-interface edit after an abandoned attempt and after an abandoned full replacement (remove_all, with and without rewriting); thorough: also two committed write batches through every pair of successive single-slot edits); evaluations = (qname,qtype) queries + walks compared with the reference resolver",
+            "rule": "states = all zone contents (kind per slot name, consistent with zone rules); transitions = histories executed on the real zone (builder fwd/rev, parsed zonefile, updater full replacement from bare and busy zones, write interface from bare / via remove_all, and for every single-slot neighbour content an updater edit, a write-interface edit, a write-interface edit after an abandoned attempt and after an abandoned full replacement (remove_all, with and without rewriting); thorough: also two committed write batches through every pair of successive single-slot edits); plus the chains of part S (commit_flavours) and the zones of parts N2/N3 (case_axis); evaluations = (qname,qtype) queries + walks compared with the reference resolver",
             "exhaustive": true,
             "zone_tree": {"zones": T_ZONES.iter().map(|(n, c)| format!("{n}/{c}")).collect::<Vec<_>>(), "qnames": T_QNAMES, "operation_sequences": tree_seqs, "final_zone_sets_reached": tree_sets, "rule": "every sequence of insert/remove over the 7 zones (two classes, nested apexes, root) to the depth bound on a real ZoneTree; after every step find_zone for every qname x class == nearest present ancestor (RFC 1034 4.3.2 step 2), get_zone and iter_zones == present set"},
+            "commit_flavours": {"flavours": FLAVS.iter().map(|f| format!("{f:?}")).collect::<Vec<_>>(), "chains": commit_chains, "qnames": S_QNAMES, "rule": "part S: for each base content x each single-slot edit (small menus), apex TXT toggle or no RRset edit x chain shape (edit,revert / nothing,edit; thorough also edit,nothing and the 3-commit edit,nothing,revert, with and without a requested diff) x a flavour per commit {new SOA stored + commit(false), SOA untouched + commit(false), SOA untouched + commit(true), new SOA stored + commit(true)} x start serial menu (incl. 2^32-1; thorough 2^32-2, 2^31-1, 0): after EVERY commit the model SOA (explicit: as stored incl. its TTL; commit(true): RFC 1982 serial+1, rest unchanged) must be the one and only authority record of every negative answer (owner, serial, all fields; TTL the SOA's or capped by MINIMUM), the answer of a direct apex SOA query (exact TTL), all answers == reference, positive TTLs == the RRsets', and every right answer == the answer of a fresh ZoneBuilder zone with the same records, TTLs included"},
+            "case_axis": {"spellings": SPELLINGS.iter().map(|s| format!("{s:?}")).collect::<Vec<_>>(), "owner_case_zones": owner_case_zones, "rule": "N1: every content (builder zone; thorough also reverse order and parsed zonefile) x every qname x {apex upper, rest upper, all upper, labels alternating even/odd} x qtype (quick: A, DS): never out-of-zone, == reference, == the lower-case query's records incl. TTL (owners compared case-insensitively). N2: every content of the small universe (thorough: all) x the 5 spellings of OWNER names fed to ZoneBuilder::insert_*, parsed::Zonefile, update_child/make_zone_cut (from the bare zone) and ZoneUpdater full replacement; every base-content edit (both directions) through the write interface and ZoneUpdater add/delete with spelled owners against a lower-case built zone: accepted, and all lower-case queries + walk == reference. N3: the same with the zone's apex stored as 'Z.' (owners lower-case and alternating), builder/parsed zones also queried in every spelling"},
             "slots": SLOTS,
             "qnames": QNAMES,
             "qtypes": QTYPES.iter().map(|t| t.to_string()).collect::<Vec<_>>(),
